@@ -125,7 +125,7 @@ pub fn run_cli_timed(release: bool, opts: &[&str], steps: &[crate::run::TimedSte
             // consumed: the pipe is empty and a thread of the child is blocked in read() on its end of it
             let t = shim::real_mono_ns();
             let mut ok = false;
-            while shim::real_mono_ns() - t < 3_000_000_000 {
+            while shim::real_mono_ns() - t < 12_000_000_000 {
                 let mut inq: libc::c_int = -1;
                 let drained = unsafe { libc::ioctl(wfd, libc::FIONREAD, &mut inq) } == 0 && inq == 0;
                 if drained {
